@@ -1160,6 +1160,10 @@ func TestEngineStaking(t *testing.T) {
 					}
 					rw := new(big.Int).Mul(new(big.Int).Div(one, big.NewInt(1000)), big.NewInt(int64(1+r.Intn(5000))))
 					coins := sdk.NewCoins(coin(rw))
+					if r.Chance(1, 4) { // fees of blocks come in every denomination that pays fees: rewards in a second denomination
+						coins = coins.Add(sdk.NewInt64Coin("utwo", int64(1000+r.Intn(100000))))
+						p.Count("reward:second-denomination")
+					}
 					require.NoError(t, bk.MintCoins(base, minttypes.ModuleName, coins))
 					require.NoError(t, bk.SendCoinsFromModuleToModule(base, minttypes.ModuleName, disttypes.ModuleName, coins))
 					require.NoError(t, dk.AllocateTokensToValidator(base, val, sdk.NewDecCoinsFromCoins(coins...)))
